@@ -150,7 +150,7 @@ type connPlan struct {
 type kv struct{ k, v int }
 
 // buildPlan: kinds is the sequence of client tokens the behaviour will send (in order).
-func buildPlan(rng *rand.Rand, c int, hs, tk string, key keyInfo, kinds []kv, ntgt int, reqAddr string, atyp int, primed func(p *connPlan)) *connPlan {
+func buildPlan(rng *rand.Rand, c int, hs, tk string, key keyInfo, kinds []kv, ntgt int, reqAddr string, atyp int, ov *override, primed func(p *connPlan)) *connPlan {
 	p := &connPlan{C: c, Hs: hs, Tk: tk, Key: key, Atyp: atyp, ReqAddr: reqAddr}
 	for i := 0; i < ntgt; i++ {
 		p.TPayloads = append(p.TPayloads, randBytes(rng, pickSize(rng)))
@@ -181,12 +181,15 @@ func buildPlan(rng *rand.Rand, c int, hs, tk string, key keyInfo, kinds []kv, nt
 	switch {
 	case garbage:
 		v := rng.Intn(4)
-		if v == 0 || len(body) == 0 {
+		if ov != nil && ov.Variant != "" {
+			v = map[string]int{"random": 0, "flip-salt": 1, "flip-len": 2, "flip-lentag": 3}[ov.Variant]
+		}
+		if v == 0 || (len(body) == 0 && (ov == nil || ov.Variant == "")) {
 			p.Variant = "random"
 			first = randBytes(rng, 50)
 		} else {
 			// a valid stream with one bit flipped in the salt / encrypted length / length tag
-			ssw.Write(append(append([]byte(nil), addr...), randBytes(rng, 1+rng.Intn(200))...))
+			ssw.Write(append(append([]byte(nil), addr...), randBytes(rng, 200+rng.Intn(200))...))
 			first = take()
 			ss := key.key.SaltSize()
 			cls := []string{"salt", "len", "lentag"}[v-1]
@@ -273,6 +276,18 @@ func buildPlan(rng *rand.Rand, c int, hs, tk string, key keyInfo, kinds []kv, nt
 		units += k.v
 		p.Toks = append(p.Toks, token{Kind: kPre, V: k.v, Bytes: b})
 		idx++
+	}
+	if ov != nil && len(ov.Lens) > 0 && garbage {
+		// forced byte lengths: the stream is `first` followed by random bytes, cut as the override says
+		stream := append(append([]byte(nil), first...), randBytes(rng, 70000)...)
+		p.Toks = p.Toks[:0]
+		off := 0
+		for i, k := range kinds {
+			n := ov.Lens[i%len(ov.Lens)]
+			p.Toks = append(p.Toks, token{Kind: k.k, V: k.v, Bytes: stream[off : off+n]})
+			off += n
+		}
+		return p
 	}
 	rest := first[50:]
 	ndata := len(p.Payloads)
